@@ -1,0 +1,11 @@
+//go:build verif
+
+package segment
+
+import "time"
+
+// VerifSetTimeNow replaces the package clock (verification harness only).
+func VerifSetTimeNow(f func() time.Time) { timeNow = f }
+
+// VerifMaxPayloadSize returns the segment payload size.
+func VerifMaxPayloadSize() int { return maxPayloadSize }
